@@ -549,6 +549,40 @@ pub fn minimise_seed(prop: &str, world: &str, ty: usize, seed: u64, backend: &st
     0
 }
 
+/// Sequential mini-batch without worker threads or files: the entry point used under Miri
+/// (`cargo +nightly miri run --no-default-features -- miri --property C10 --runs 40`), where
+/// every run doubles as an undefined-behaviour check of the library code it drives.
+pub fn run_sequential(prop: &str, runs: u64, seed: u64, backend: &str, first: u64) -> i32 {
+    let mut n = 0u64;
+    let mut nontrivial = 0u64;
+    for idx in first..first + runs {
+        for sc in seeded_job(prop, backend, seed, idx) {
+            // sized structs/enums are emplaced with `ptr.write(value)`, which leaves their padding
+            // bytes uninitialised; the harness reads frames byte-wise, so under Miri those two
+            // zoo types are left out (see DESIGN §10)
+            if cfg!(miri) && (sc.type_name == "Fixed" || sc.type_name == "FixedE") {
+                continue;
+            }
+            let out = run_scenario(&sc, false);
+            n += 1;
+            if out.nontrivial {
+                nontrivial += 1;
+            }
+            if let Some(e) = out.harness_error {
+                eprintln!("harness error: {}", e);
+                return 2;
+            }
+            if let Some(v) = out.violation {
+                println!("violation in job {} (world={:?} type={} seed={} aux={:?}): [{}] {}", idx, sc.world, sc.type_name, sc.seed, sc.aux, v.signature(), v.detail);
+                println!("VIOLATION property={} replay=seed:{}", prop, sc.seed);
+                return 1;
+            }
+        }
+    }
+    println!("sequential batch: property={} jobs {}..{} = {} runs ({} non-trivial), no violation", prop, first, first + runs, n, nontrivial);
+    0
+}
+
 pub fn run_one_debug(prop: &str, world: &str, ty: usize, seed: u64, backend: &str) -> i32 {
     let w = if world == "async" { WorldKind::Async } else { WorldKind::Blocking };
     let sc = base_scenario(prop, w, backend, ty, seed);
